@@ -15,6 +15,7 @@ static inline struct v_str v_str_substr2(const struct v_str *s, size_t pos, size
 static _Bool v_find2_hit;      /* ghost: a search for a two-character pattern (CRLF) has succeeded */
 static inline size_t v_str_find(const struct v_str *s, size_t pos, size_t len) { size_t r; if (len > s->size || pos > s->size - len) return V_NPOS; if (r == V_NPOS) return r; __CPROVER_assume(r >= pos && r <= s->size - len); if (len == 2) v_find2_hit = 1; return r; }
 static inline int v_nondet_int(void) { int x; return x; }
+static inline char v_str_at(const struct v_str *s, size_t i) { char c; if (i >= s->size) { __exc = V_EXC_OUT_OF_RANGE; return 0; } return c; }      /* std::string::at */
 static inline struct v_str v_str_substr(const struct v_str *s) { struct v_str r; __CPROVER_assume(r.size <= s->size); return r; }   /* pos <= size is the caller's business */
 static inline struct v_str v_str_cat(const struct v_str *a, const struct v_str *b) { struct v_str r; __CPROVER_assume(r.size < V_MAXSZ && (a == 0 || r.size >= a->size) && (b == 0 || r.size >= b->size)); return r; }
 static inline _Bool v_str_eq_lit(const struct v_str *s) { (void)s; _Bool r; return r; }
